@@ -101,6 +101,18 @@ def scenario_big(rng):
     return {"name": "multi-buffer", "pre": [pre], "final": w.to_json()}
 
 
+def scenario_random(rng, i):
+    """a deployed workspace, then 2-4 generated edits (the C12 generator: rows, algebra, patches, imports, packs, schema list,
+    vocabulary, shadow copies …); the deployment that follows is the one that gets killed"""
+    w = dc.base_workspace(rng, big=(i % 3 == 2))
+    pre = [w.to_json()]
+    if rng.random() < 0.5:
+        dc.gen_edit(rng, w)
+        pre.append(w.to_json())
+    names = [dc.gen_edit(rng, w) for _ in range(rng.randint(2, 4))]
+    return {"name": "random-%d" % i, "pre": pre, "final": w.to_json(), "edits": names}
+
+
 # ---------------------------------------------------------------------------------------------- helpers
 def file_hashes(root):
     b = os.path.join(root, "user", "build")
@@ -220,6 +232,8 @@ class Sweep:
                 pts.append(("fs", rng.choice(ks), False))
                 if cls[0] in ("write", "writev") and len(ks) > 1:
                     pts.append(("fs", ks[1], False))          # the second write of a multi-buffer file
+            pts += [("fs", k, False) for k, op, fn, sz in fs if op == "rename"]      # every temp-file → destination switch
+            pts += [("fs", k + 1, False) for k, op, fn, sz in fs if op == "rename" and k < len(fs)]     # … and right after it
             extra = [k for k, *_ in fs]
             rng.shuffle(extra)
             pts += [("fs", k, False) for k in extra[:10]]
@@ -371,12 +385,21 @@ class Sweep:
                 if mm and not out:
                     self.stats["mismatches"] += len(mm)
                     self.mm.append({"scenario": info["sc"]["name"], "kill": where, "classes": classes, "what": mm[:3]})
+        if redeploy_ok:
+            tmps = [os.path.join(d, n) for d in ("user", "user/build") for n in os.listdir(os.path.join(work, d)) if n.endswith(".tmp")]
+            if tmps:
+                out.append(("C13:tmp-leftover", "after a kill at %s and a redeployment a temporary file is still there: %s" % (where, tmps)))
+        tmp_after_kill = [n for n in left if n.endswith(".tmp")]
+        if tmp_after_kill:
+            self.stats["kills_leaving_tmp"] = self.stats.get("kills_leaving_tmp", 0) + 1
         det = [int(l.split(" ")[1]) for l in loose if l.startswith("detect ")]
         if r2["detect"] is not None:
             self.stats["detect_after_kill"] += r2["detect"]
             if det and det[-1] != r2["detect"]:
                 self.mm.append({"scenario": info["sc"]["name"], "kill": where, "what": ["detect after kill: model %d impl %d" % (det[-1], r2["detect"])]})
-            incomplete = any(v != "new" for v in classes.values()) or any(n not in left for n in info["ref_hashes"] if kind_of(n) != "other")
+            def as_ref(n):
+                return left.get(n) == info["ref_hashes"].get(n) or (entry(dump, n) is not None and entry(dump, n) == entry(info["ref_dump"], n))
+            incomplete = any(not as_ref(n) for n in info["ref_hashes"] if kind_of(n) != "other")
             if "workspace_update" not in r["tasks"] and incomplete and r["detect"] == 1 and r2["detect"] == 0:
                 out.append(("C13:detect-silent", "after a kill at %s DetectModifications no longer fires although workspace_update never "
                             "finished (last_build_time %s, before the killed deployment %s)" % (where, dump["lastbuild"], info["pre_dump"]["lastbuild"])))
@@ -433,11 +456,12 @@ def run(c):
     ncorpus = 0
     for p in sorted(glob.glob(os.path.join(vlib.CORPUS, "C13", "*.json"))):
         rec = json.load(open(p))
-        info = sw.prepare(rec["scenario"], "corpus")
-        pt = tuple(rec["kill"])
-        if pt[0] == "cp" and not have_hooks:
+        if rec.get("match", {}).get("type") == "cp" and not have_hooks:
             continue
-        pt = resolve_kill(info, rec) or pt
+        info = sw.prepare(rec["scenario"], "corpus")
+        pt = resolve_kill(info, rec)
+        if pt is None:
+            continue          # the call the recipe names no longer exists on this tree
         for v in sw.kill_run(info, pt):
             v = (v[0], v[1] + " [corpus %s]" % os.path.basename(p), v[2])
             if not any(x[0] == v[0] for x in sw.viol):
@@ -449,6 +473,9 @@ def run(c):
     for i, mk in enumerate((scenario_small, scenario_edit, scenario_big)):
         sc = mk(random.Random(c.seed * 100 + i))
         per[sc["name"]] = sw.run_scenario(sc, "s%d" % i, quick)
+    for i in range(2 if quick else 24):
+        sc = scenario_random(random.Random(c.seed * 1000 + i), i)
+        per[sc["name"]] = dict(sw.run_scenario(sc, "r%d" % i, quick), edits=sc["edits"])
     # premises of the conditional theorems, evaluated on the regenerated facts
     premises = {"reverse_loadable_complete": facts["reverseRemovedFirst"], "yaml_loadable_complete": not facts["yamlSavedInPlace"]}
     # verdicts
@@ -505,7 +532,7 @@ def resolve_kill(info, rec):
     if not m:
         return None
     if m["type"] == "fs":
-        ks = [int(o[0]) for o in info["fs_ops"] if len(o) == 4 and o[1] == m["op"] and o[2].endswith(m["file"])]
+        ks = [int(o[0]) for o in info["fs_ops"] if len(o) == 4 and o[1] == m["op"] and (o[2].endswith(m["file"]) or o[2].endswith(m["file"] + ".tmp"))]
         if len(ks) > m.get("ordinal", 0):
             return ("fs", ks[m.get("ordinal", 0)], bool(m.get("torn", False)))
     else:
@@ -523,6 +550,9 @@ def replay(c, r):
     sw = Sweep(c, runner, interposer, dc.hooks_present())
     info = sw.prepare(r["scenario"], "replay")
     pt = resolve_kill(info, r) or tuple(r["kill"])
+    if len(pt) < 2 or not pt[1]:
+        print("replay: the call this recipe names does not exist on this tree")
+        return 0
     if pt[0] == "cp" and not dc.hooks_present():
         print("replay: needs the RIME_VERIF_CRASHPOINT hook")
         return 1
